@@ -76,6 +76,8 @@ def case_text(c):
             L.append("life %d" % h["life"])
         if h.get("ignoreterm"):
             L.append("ignoreterm 1")
+        if h.get("termgrace"):
+            L.append("termgrace %d" % h["termgrace"])
         for key in ("out", "err"):
             for at, d in h.get(key, []):
                 L.append("%s %d %s" % (key, at, d))
@@ -209,8 +211,8 @@ def fan_event(ev):
             return [th, e]
         if e in ("lock", "unlock") and ev[2] == "tc":
             return [th, e]
-        if e == "signal" and ev[2] == "tc":
-            return [th, "signal"]
+        if e in ("signal", "broadcast") and ev[2] == "tc":
+            return [th, "signal"]       # the dispatcher is the only waiter on threadcount_cond: the two are the same
         return None
     if th in ("G", "Z", "-"):
         # watchdog / signals thread / clock: outside the Fan model unless they touch the protocol objects
